@@ -278,7 +278,15 @@ def r2_lookup_order(ctx, rep):
     ok = any("current_path" in e.text() for e in rel) and any(
         "base_url" in origin(e.text(e.node.args[0]), idx[id(e)]) or "base_url" in e.text() for e in rel if e.node.args)
     rep.ob("link is made relative to the page being converted", ok, "", py.nloc(rel[0].node) if rel else py.nloc(fn))
-    ok = any(any("startswith('http" in c or "startswith(\"http" in c for c in e.cond_texts()) for e in rel)
+    def ext_atom(x):
+        # "the URL is absolute already": `url.startswith('http...')`, directly or through a local that holds the test
+        alts = astq.alternatives(x, fn) if isinstance(x, (ast.Name, ast.Call)) else []
+        y = alts[0][0] if len(alts) == 1 else x
+        if isinstance(y, ast.Call) and isinstance(y.func, ast.Attribute) and y.func.attr == "startswith" and y.args and \
+                any(isinstance(c, ast.Constant) and isinstance(c.value, str) and c.value.startswith("http") for c in ast.walk(y.args[0])):
+            return ("ext", True)
+        return None
+    ok = bool(rel) and any(astq.path_implies(e, ext_atom, {"ext": False}) is True for e in rel)
     rep.ob("external URLs are kept absolute", ok, "", py.nloc(fn), nontrivial=False)
 
 
